@@ -59,7 +59,7 @@ TRUSTED = [
     "(inputs are generated with margins >= 1e-3 from every tolerance)",
     "checked, not modelled: run()'s choice of the points to refine, pickling of K-points, GridTrigonal",
 ]
-RULE = ("cases = (point group from generators on a compatible lattice, grid, symmetry on/off, periodicity mask, random "
+RULE = ("cases = (point group from generators on a compatible lattice - reduced or in a non-reduced/sheared basis -, grid, symmetry on/off, periodicity mask, random "
         "refinement history of 0-6 steps with random meshes and selected indices; call histories of 3-6 get_K_list calls "
         "with varying (use_symmetry, k_batch) on ONE Grid / GridTetra object with refinement of the returned lists in "
         "between, pairs of run() calls on one Grid, and restart histories of run(): a stored run followed by 1-3 chained "
@@ -96,7 +96,20 @@ class ToySystem:
         self.recip_lattice = pg.recip_lattice
 
 
-def lattice(kind, rng):
+def lattice(kind, rng, shear=True):
+    """lattice of the given kind; with probability 0.35 in a NON-REDUCED (sheared) basis of the same lattice:
+    a2 += m3 a1, a3 += m1 a1 + m2 a2 with small integers - a valid but skewed cell, the point group stays compatible"""
+    A = _lattice(kind, rng)
+    if shear and rng.random() < 0.35:
+        U = np.eye(3)
+        U[1, 0] = rng.randint(-2, 2)
+        U[2, 0] = rng.randint(-2, 2)
+        U[2, 1] = rng.randint(-2, 2)
+        A = U @ A
+    return A
+
+
+def _lattice(kind, rng):
     a, b, c = rng.choice([1.0, 1.25, 1.5]), rng.choice([1.0, 1.25, 1.75]), rng.choice([1.5, 2.0, 1.125])
     if kind == "cubic":
         return np.eye(3) * a
@@ -176,6 +189,8 @@ def pick_case(rng, big=False):
     lat = lattice(kind, rng)
     pg = get_pg(name, gens, lat)
     periodic = [True, True, True]
+    if abs(lat[1, 0]) + abs(lat[2, 0]) + abs(lat[2, 1]) > 0.6:
+        kind = kind + "+skewed"
     if rng.random() < 0.15:
         periodic[rng.randrange(3)] = False
     sizes = [1, 2, 3, 4, 4, 2, 6] + ([8, 5] if big else [])
